@@ -198,8 +198,9 @@ Definition assembled_decompose (t : assembled_task) : list problem :=
    else []).
 
 (* ValidatedExternalEquivalenceTask::decompose; Panic = unreachable!() on a Lemma / Definition /
-   InductiveLemma role among the left or right formulas (reachable: `definition` passes
-   ensure_specification_roles_are_supported) *)
+   InductiveLemma role among the left or right formulas (no longer reachable from
+   external_decompose since /repo be1055e: ensure_specification_roles_are_supported admits
+   assumption / spec only, [spec_roles_supported]; kept for validated tasks built by hand) *)
 Definition validated_assemble (t : validated_task) : option (list ext_warning * assembled_task) :=
   let s0 := mkvacc (map (fun a => into_problem_formula a PAxiom) (vt_user_guide_assumptions t)) [] [] [] [] [] in
   match fold_opt (validated_left_step (vt_break t)) (vt_left t) s0 with
